@@ -198,7 +198,7 @@ class World:
         self.nspell = getattr(self, "nspell", {})
         k_ = self.nspell.get(ev["t"], 0)
         self.nspell[ev["t"]] = k_ + 1
-        text = [ev["t"], ev["t"].capitalize(), ev["t"].upper() + "  " + ev["t"], ev["t"]][k_ % 4]
+        text = [ev["t"], ev["t"].capitalize(), ev["t"].upper() + "  " + ev["t"], ev["t"]][k_ % 4] if getattr(self, "spell", False) else ev["t"]
         with E.LogCapture(), E.patched_attr(health, check_and_log=spy):
             orch.run_turn(ctx, self.states[ev["s"]], text)
         return seen
@@ -211,31 +211,38 @@ def replay_history(case) -> Dict[str, Any]:
     work = tempfile.mkdtemp(prefix="c05_", dir=case["workdir"])
     out = {"mismatch": [], "predicted": [], "error": None}
     try:
-        res = {}
-        for cached in (True, False):
-            E.reset_global_caches()
-            w = World(cached, work, case.get("init_eps", ()))
-            seq = []
-            for ev in h:
-                if ev["ev"] == "turn":
-                    seq.append(w.run_turn(ev))
-                else:
-                    w.env(ev)
-                    seq.append(None)
-            res[cached] = seq
-        for i, ev in enumerate(h):
-            if ev["ev"] != "turn":
-                continue
-            for cache in ("t1", "t2", "tl"):
-                for cause in ev["obs"][cache]["cause"]:
-                    # predictions of the weakest-key model count only for components the current keys lack
-                    if case.get("origin") == "witness" and CAUSE_TO_KEY.get((cache, cause)) in KEY_HAS_CURRENT:
-                        continue
-                    out["predicted"].append((i, cache, cause))
-            a, b = res[True][i], res[False][i]
-            for stage in ("t1", "t2"):
-                if a.get(stage) != b.get(stage):
-                    out["mismatch"].append((i, stage, _diff(a.get(stage), b.get(stage))))
+        # every history runs twice: with the text token spelled identically on every turn (repeated turns hit the caches)
+        # and with the spelling rotating from turn to turn (a key that folds spellings serves the wrong entry)
+        for spell in (False, True):
+            res = {}
+            for cached in (True, False):
+                E.reset_global_caches()
+                w = World(cached, work, case.get("init_eps", ()))
+                w.spell = spell
+                seq = []
+                for ev in h:
+                    if ev["ev"] == "turn":
+                        seq.append(w.run_turn(ev))
+                    else:
+                        w.env(ev)
+                        seq.append(None)
+                res[cached] = seq
+            for i, ev in enumerate(h):
+                if ev["ev"] != "turn":
+                    continue
+                if not spell:
+                    for cache in ("t1", "t2", "tl"):
+                        for cause in ev["obs"][cache]["cause"]:
+                            # predictions of the weakest-key model count only for components the current keys lack
+                            if case.get("origin") == "witness" and CAUSE_TO_KEY.get((cache, cause)) in KEY_HAS_CURRENT:
+                                continue
+                            out["predicted"].append((i, cache, cause))
+                a, b = res[True][i], res[False][i]
+                for stage in ("t1", "t2"):
+                    if a.get(stage) != b.get(stage):
+                        out["mismatch"].append((i, stage, ("[spellings rotate] " if spell else "") + _diff(a.get(stage), b.get(stage))))
+            if out["mismatch"]:
+                break
     except Exception as e:
         import traceback
         out["error"] = f"{type(e).__name__}: {e}\n{traceback.format_exc()[-1500:]}"
